@@ -266,7 +266,15 @@ def run(rep):
         Q2 = 4.0 if i % 4 == 0 else 10 ** rng.uniform(math.log10(4.0), 2)
         al0 = max(par['al0s'], par['al0g'], par['Eal0s'], par['Eal0g'])
         variants = [(PHI0, C0)]
-        variants.append((rng.uniform(math.pi / 2, 2.1), C0))
+        if slow and i < 4:
+            # in every run: one msbar NLO point well inside the region of the recorded finding and one below it
+            xi, Q2, t = rng.uniform(0.18, 0.3), rng.uniform(60, 100), -0.5
+            par = dict(par, secs=-0.16, secg=-0.07, this=0.04, thig=-0.04, Esecs=0.16, Esecg=0.25, Ethis=-0.04, Ethig=-0.05,
+                       al0s=1.13, al0g=1.03, Eal0s=1.21, Eal0g=1.06)
+            variants.append((2.1, C0))
+            variants.append((rng.uniform(math.pi / 2, 1.9), C0))
+        else:
+            variants.append((rng.uniform(math.pi / 2, 2.1), C0))
         if not slow:
             variants.append((2.1 if rng.random() < 0.5 else rng.uniform(math.pi / 2, 2.1), rng.uniform(max(0.3, al0 - 1 + 0.1), 0.6)))
         res = []
@@ -307,7 +315,9 @@ def run(rep):
                 track('contour %s: deviation / tolerance' % name, sdiv(d, allow))
                 track('contour %s: relative deviation' % name, sdiv(d, abs(ref[3][name])))
                 if not d <= allow:
-                    viol('contour/%s/p=%d/%s' % (name, p, scheme),
+                    # the non-diagonal (msbar NLO) evolution integral has its own fixed inner contour: see known_findings.json
+                    nd = (p == 1 and scheme == 'msbar' and phi > 1.9 and name in ('H', 'E'))
+                    viol(('contour-nd/msbar-nlo/phi>1.9/%s' % name) if nd else 'contour/%s/p=%d/%s' % (name, p, scheme),
                          '%s changes with the Mellin-Barnes contour: %s at (phi=%.6g, c=%.4g) vs %s at the default (phi=1.57079632, '
                          'c=0.35): relative %.3g; ξ=%g t=%g Q2=%g p=%d %s' % (name, vals[name], phi, c, ref[3][name],
                                                                               sdiv(d, abs(ref[3][name])), xi, t, Q2, p, scheme),
